@@ -1,7 +1,106 @@
+import MythVerif.Model.Once
 import Driver.Util
-/-! `drv_once`: stub, to be filled in -/
+/-! `drv_once`: trace acceptor.  Replays a controller trace of a whole-library run on the once
+model: every access to a once-control (`obj <name> once`) must be an enabled model step of that
+thread with the same observed value.
+
+* `ONCE_READ v`, `ONCE_CAS ok`, `ONCE_DONE`, `ONCE_WAIT_READ v` (also in its `SPIN_` form, which the
+  program uses for unsuccessful wait-loop reads) are the library's MYTH_VERIF_POINTs;
+* `note … once_rstep <obj>` / `note … once_rend <obj>` are written by the program's init routine at
+  each of its steps and at its end (the routine is program code);
+* `myth_yield` inside the wait loop leaves no event when no other thread is runnable, so the `yield`
+  label is inserted by the acceptor in front of a wait-loop read of a thread the model has at `yld`.
+
+At the end of the trace every call must have returned (`pc = idle` for every thread seen) unless
+the trace ends with a deadlock verdict. -/
 namespace Driver.Once
+open MythVerif MythVerif.Once
+
+structure Obj where
+  name : String
+  st : St
+  tids : List Nat := []
+
+structure Acc where
+  objs : List Obj := []
+  line : Nat := 0
+  accepted : Nat := 0
+  err : Option String := none
+  verdict : Bool := false
+
+def showPc : PC → String
+  | .idle => "idle" | .rd => "rd" | .run => "run" | .fin => "fin" | .wait => "wait" | .yld => "yld"
+
+def applyLbls (st : St) : List Lbl → Option St
+  | [] => some st
+  | l :: ls => match step st l with
+    | some st' => applyLbls st' ls
+    | none => none
+
+/-- labels for one event of thread `t` on a control whose model state is `st` -/
+def toLbls (st : St) (pt : String) (t : Nat) (v : Int) : Option (List Lbl) :=
+  match pt with
+  | "ONCE_READ" => some [.read t v.toNat]
+  | "ONCE_CAS" => some [.cas t (v == 1)]
+  | "ONCE_DONE" => some [.storeDone t]
+  | "ONCE_WAIT_READ" | "SPIN_ONCE_WAIT_READ" =>
+      if st.pc t = .yld then some [.yield t, .waitRead t v.toNat] else some [.waitRead t v.toNat]
+  | "once_rstep" => some [.routineStep t]
+  | "once_rend" => some [.routineEnd t]
+  | _ => none
+
+def stepObj (acc : Acc) (line : String) (oname pt : String) (cur : Option Nat) (v : Int) : Acc :=
+  match acc.objs.find? (·.name == oname) with
+  | none => acc      -- an object this acceptor does not own
+  | some o =>
+    match cur with
+    | none => { acc with err := some s!"MISMATCH line {acc.line}: cannot attribute `{line.trimAscii.toString}` to a thread" }
+    | some t =>
+      match toLbls o.st pt t v with
+      | none => acc
+      | some ls =>
+        match applyLbls o.st ls with
+        | some st' =>
+          let o' : Obj := { o with st := st', tids := if o.tids.contains t then o.tids else t :: o.tids }
+          { acc with objs := acc.objs.map (fun p => if p.name == oname then o' else p),
+                     accepted := acc.accepted + ls.length }
+        | none =>
+          { acc with err := some s!"MISMATCH line {acc.line}: model cannot do `{line.trimAscii.toString}`: state={o.st.state} execs={o.st.execs} pc[{t}]={showPc (o.st.pc t)}" }
+
+def feed (acc : Acc) (line : String) : Acc :=
+  if acc.err.isSome then acc else
+  let acc := { acc with line := acc.line + 1 }
+  match Driver.words line with
+  | ["obj", name, "once"] => { acc with objs := { name := name, st := init } :: acc.objs }
+  | ["verdict", _] => { acc with verdict := true }
+  | ["note", _, cur, pt, oname] =>
+      if pt == "once_rstep" || pt == "once_rend" then stepObj acc line oname pt cur.toNat? 0 else acc
+  | _ =>
+  match Driver.parseEv line with
+  | none => acc
+  | some e =>
+    if e.pt.startsWith "ONCE_" || e.pt.startsWith "SPIN_ONCE_" then stepObj acc line e.a e.pt e.cur e.v
+    else acc
+
+/-- every call seen in a complete trace has returned, the routine ran once per used control -/
+def finalCheck (acc : Acc) : Option String :=
+  if acc.verdict then none else
+  acc.objs.findSome? fun o =>
+    match o.tids.find? (fun t => o.st.pc t != .idle) with
+    | some t => some s!"MISMATCH at end of trace: thread {t} is still inside myth_once on {o.name} (pc={showPc (o.st.pc t)})"
+    | none =>
+      if !o.tids.isEmpty && (o.st.execs != 1 || o.st.state != sDone) then
+        some s!"MISMATCH at end of trace: control {o.name} was used but execs={o.st.execs} state={o.st.state}"
+      else none
+
 def run (_args : List String) : IO UInt32 := do
-  IO.eprintln "drv_once: not implemented"
-  return 2
+  let stdin ← IO.getStdin
+  let acc ← Driver.forLines stdin ({} : Acc) fun a line => pure (feed a line)
+  match acc.err with
+  | some e => IO.println e; return 0
+  | none =>
+    match finalCheck acc with
+    | some e => IO.println e; return 0
+    | none => IO.println s!"accepted {acc.accepted}"; return 0
+
 end Driver.Once
